@@ -72,6 +72,12 @@ def midi_to_note_sequence(midi_data):
                                 (sys.exc_info()[0], sys.exc_info()[1]))
   # pylint: enable=bare-except
 
+  # An SMPTE time division (high bit of the header's division field set) is read
+  # as a negative resolution, which would make all event times negative.
+  if midi.resolution <= 0:
+    raise MIDIConversionError(
+        'Unsupported time division (resolution %d)' % midi.resolution)
+
   sequence = music_pb2.NoteSequence()
 
   # Populate header.
